@@ -303,8 +303,9 @@ MANIFEST = {
             "of loop iterations): any two try_spawn calls of a run of spawner_task start >= 1 s apart, the later one >= 1 s "
             "after the earlier one returned (C36_pace); for a spawner that stays incomplete the attempts are exactly periodic "
             "- at the start, then exactly 1 s after the previous one returned - nothing else the loop does is later than that "
-            "deadline and the log only ends by channel close or try_spawn error (C36_keeps_trying, with the per-iteration "
-            "facts C36_attempt_when_due, C36_no_attempt_otherwise, C36_wait_bounded for every spawner); the standard "
+            "deadline and the log only ends by channel close or try_spawn error (C36_keeps_trying_partial: run-level only for "
+            "spawners that never complete; for every spawner the per-iteration facts C36_attempt_when_due, "
+            "C36_no_attempt_otherwise, C36_wait_bounded); the standard "
             "spawner inside the loop, for every DNS oracle: no attempt unless no source was spawned yet or a removal with a "
             "reason other than Demobilized was handled since (C36_no_respawn_demobilized), after an Unreachable removal the "
             "next source uses a newly resolved address, otherwise the cached one (C36_reresolve_unreachable).",
